@@ -44,6 +44,38 @@ def short(defpath):
     return "::".join(segs[-2:]) if len(segs) >= 2 else p
 
 
+# optional let-substitution: {local name: THIR init expr} for immutable single-assignment `let x = <simple expr>`
+SUBST = {}
+_subst_guard = set()
+
+
+def let_substitutions(root):
+    """immutable locals bound exactly once in the whole body by `let x = <call|op|field|lit expr>`"""
+    from . import thir as _t
+    counts = {}
+    inits = {}
+
+    def count_pat(p):
+        for n in _t.walk(p):
+            if n.get("k") == "bind":
+                counts[n["n"]] = counts.get(n["n"], 0) + 1
+    for n in _t.walk(root):
+        k = n.get("k")
+        if k == "let":
+            count_pat(n["p"])
+            p = n["p"]
+            if p.get("k") == "bind" and "sub" not in p and p.get("mode") == "BindingMode(No, Not)" and isinstance(n.get("i"), dict):
+                init = _t.peel(n["i"])
+                if isinstance(init, dict) and init.get("k") in ("call", "bin", "logic", "un", "field", "lit"):
+                    inits[p["n"]] = n["i"]
+        elif k == "match":
+            for a in n["arms"]:
+                count_pat(a["p"])
+        elif k == "letx":
+            count_pat(n["p"])
+    return {k: v for k, v in inits.items() if counts.get(k, 0) == 1}
+
+
 def desc(e):
     e0 = e
     while isinstance(e, dict) and e.get("k") in ("ref", "deref", "coerce", "cast", "rawref"):
@@ -52,7 +84,14 @@ def desc(e):
         return "?"
     k = e.get("k")
     if k == "var":
-        return e["n"]
+        n = e["n"]
+        if n in SUBST and n not in _subst_guard:
+            _subst_guard.add(n)
+            try:
+                return desc(SUBST[n])
+            finally:
+                _subst_guard.discard(n)
+        return n
     if k == "upvar":
         return "^" + e["n"]  # captured variable: cannot be shadowed by a local of the same name
     if k == "field":
@@ -85,6 +124,8 @@ def desc(e):
         return "%s %s" % (e["op"], desc(e["e"]))
     if k == "bin":
         return "%s %s %s" % (desc(e["a"]), e["op"], desc(e["b"]))
+    if k == "logic":
+        return "(%s %s %s)" % (desc(e["a"]), "||" if e["op"] == "or" else "&&", desc(e["b"]))
     if k == "tuple":
         return "(%s)" % ", ".join(desc(x) for x in e["f"])
     if k == "closure":
